@@ -1,3 +1,5 @@
+pub mod c02;
+pub mod c03;
 pub mod c10;
 
 use crate::engine::Tier;
@@ -10,6 +12,8 @@ pub struct Args {
 
 pub fn dispatch(id: &str, args: Args) -> ! {
     match id {
+        "C02" => c02::run(args),
+        "C03" => c03::run(args),
         "C10" => c10::run(args),
         _ => crate::engine::fault(&format!("unknown property {id}")),
     }
